@@ -14,6 +14,8 @@ import (
 
 	"github.com/anz-bank/sysl/pkg/cmdutils"
 	"github.com/anz-bank/sysl/pkg/datamodeldiagram"
+	"github.com/anz-bank/sysl/pkg/mermaid"
+	mermaiddata "github.com/anz-bank/sysl/pkg/mermaid/datamodeldiagram"
 	"github.com/anz-bank/sysl/pkg/sysl"
 	"github.com/sirupsen/logrus"
 
@@ -30,6 +32,85 @@ type dmScenario struct {
 	Seed  int64         `json:"seed"`
 	Text   bool          `json:"text"`
 	Direct bool          `json:"direct"`
+	// Mermaid: also draw the whole module with the Mermaid data-model generator (beyond the listed properties)
+	Mermaid bool `json:"mermaid"`
+}
+
+var (
+	reMdClass = regexp.MustCompile(`^class (\S+) \{$`)
+	reMdLink  = regexp.MustCompile(`^(\S+) <-- (\S+)$`)
+	reMdField = regexp.MustCompile(`^(\S+) (\S+)$`)
+)
+
+// dmMermaid draws the module with the Mermaid generator: classes, [class, member, type text] lines and
+// [referring class, referred class] links, the class names mapped back to "App.Type" labels.
+func dmMermaid(m *sysl.Module, t int, labels []string) tr.Ev {
+	ev := tr.Ev{"t": t, "e": "mermaid", "present": false, "classes": [][]string{}, "fields": [][]string{}, "edges": [][]string{},
+		"unknown": []string{}, "msg": ""}
+	type res struct {
+		text string
+		err  error
+		pan  string
+	}
+	ch := make(chan res, 1)
+	go func() {
+		var r res
+		defer func() {
+			if p := recover(); p != nil {
+				r.pan = fmt.Sprint(p)
+			}
+			ch <- r
+		}()
+		r.text, r.err = mermaiddata.GenerateFullDataDiagram(m)
+	}()
+	var r res
+	select {
+	case r = <-ch:
+	case <-time.After(20 * time.Second):
+		r.pan = "timeout"
+	}
+	if r.pan != "" || r.err != nil {
+		ev["msg"] = fmt.Sprint(r.pan, r.err)
+		return ev
+	}
+	back := map[string]string{}
+	for _, l := range labels {
+		c := mermaid.CleanString(l)
+		if o, has := back[c]; has && o != l {
+			ev["msg"] = "type names collide in their Mermaid spelling"
+			return ev
+		}
+		back[c] = l
+	}
+	name := func(c string) string {
+		if l, ok := back[c]; ok {
+			return l
+		}
+		return "?" + c
+	}
+	classes, fields, edges, unknown := [][]string{}, [][]string{}, [][]string{}, []string{}
+	cur := ""
+	for _, raw := range strings.Split(r.text, "\n") {
+		l := strings.TrimSpace(raw)
+		switch {
+		case l == "" || strings.HasPrefix(l, "%%") || l == "classDiagram":
+		case reMdClass.MatchString(l):
+			cur = name(reMdClass.FindStringSubmatch(l)[1])
+			classes = append(classes, []string{cur, ""})
+		case l == "}":
+			cur = ""
+		case cur == "" && reMdLink.MatchString(l):
+			g := reMdLink.FindStringSubmatch(l)
+			edges = append(edges, []string{name(g[1]), name(g[2])})
+		case cur != "" && reMdField.MatchString(l):
+			g := reMdField.FindStringSubmatch(l)
+			fields = append(fields, []string{cur, g[2], g[1]})
+		default:
+			unknown = append(unknown, l)
+		}
+	}
+	ev["present"], ev["classes"], ev["fields"], ev["edges"], ev["unknown"] = true, classes, fields, edges, unknown
+	return ev
 }
 
 var (
@@ -316,6 +397,29 @@ func runDataModel(in, out string, _ []string) error {
 				w.Emit(begin)
 				w.Emit(ev)
 			}
+		}
+		if sc.Mermaid && pan == "" && err == nil {
+			// the whole module: the types and fields of every application
+			all, allf, labels := [][]string{}, [][]string{}, []string{}
+			for _, app := range sortedAppNames(cr.m) {
+				if app == "Proj" {
+					continue
+				}
+				mt, mf := dmModel(cr.m, app)
+				all, allf = append(all, mt...), append(allf, mf...)
+				for _, t := range mt {
+					labels = append(labels, t[0])
+				}
+				// targets that are not declared anywhere keep their name too
+				for _, f := range mf {
+					if tg := strings.TrimSuffix(f[2], "?"); tg != "" {
+						labels = append(labels, tg)
+					}
+				}
+			}
+			tid := sc.ID*10 + 9
+			w.Emit(tr.Ev{"t": tid, "e": "begin", "scn": sc.ID, "app": "*", "mtypes": all, "mfields": allf})
+			w.Emit(dmMermaid(cr.m, tid, labels))
 		}
 		return nil
 	})
